@@ -735,6 +735,9 @@ def run(tier, seed):
         "in [2^-12, 2^12); an input exceeds the target if either component certainly does",
     ]
     nontrivial = sum(1 for m in b.meta if "inf" not in region(m[0], m[1], m[2], m[3]))
+    import resource
+    ru, rc = resource.getrusage(resource.RUSAGE_SELF), resource.getrusage(resource.RUSAGE_CHILDREN)
+    chk.cov["cpu_s"] = round(ru.ru_utime + ru.ru_stime + rc.ru_utime + rc.ru_stime, 1)      # wall time depends on the machine's load
     return chk.finish(rule="one event per evaluation of the package's expansion; non-trivial = events with finite input, whose "
                            "verdict needs enclosures of both components (or exact dyadic comparisons) in TLC",
                       distinct_nontrivial=nontrivial)
